@@ -77,7 +77,7 @@ def base_script(loop, rng, variant):
     return [(t0 + 0.0, t0 + 3.0, "blackout", 0)]
 
 
-def crash_run(variant, at_iteration, action, total=None, suspend=False, lost=False):
+def crash_run(variant, at_iteration, action, total=None, suspend=False, lost=False, slow_exit=False):
     """One run of the base scenario; `action` ('reset' | 'exit' | None) is started at event-loop pass number `at_iteration`.
     lost: two passes earlier the connection's datagram endpoint is lost (the transport reports connection_lost(OSError))."""
     import random
@@ -88,7 +88,7 @@ def crash_run(variant, at_iteration, action, total=None, suspend=False, lost=Fal
     async def main(loop):
         remove = install_tracker(loop, tracker)
         try:
-            st = fullstack.Stack(loop, SNAP, base_script(loop, rng, variant), rng, latency=0.02, suspend=(lambda ev: 0) if suspend else None)
+            st = fullstack.Stack(loop, SNAP, base_script(loop, rng, variant), rng, latency=0.02, suspend=(lambda ev: 0) if suspend else ((lambda ev: 1.2 if ev == "SPA_MAN_EXIT" else None) if slow_exit else None))
             stack_ref[0] = st
             fired = {}
             obs = []
@@ -258,17 +258,18 @@ def run(ctx):
         # the handshake happens in a short burst of passes after discovery (virtual second 4..5): take them all
         if not ctx.thorough:
             ks |= set(range(max(1, int(total * 0.15)), int(total * 0.26), 2))
-        for action in ("reset", "exit", "reset+suspending-client", "exit+suspending-client", "reset+socket-lost", "exit+socket-lost"):
+        for action in ("reset", "exit", "reset+suspending-client", "exit+suspending-client", "reset+socket-lost", "exit+socket-lost", "exit+slow-exit-handler"):
             susp = action.endswith("client")
             lost = action.endswith("lost")
+            slow = action.endswith("slow-exit-handler")      # the client's handler for SPA_MAN_EXIT stays suspended for 1.2 s: what runs meanwhile?
             action = action.split("+")[0]
-            for k in sorted(ks if not (susp or lost) else {x for x in ks if x % 3 == (0 if susp else 1)}):
-                r = crash_run(variant, k, action, suspend=susp, lost=lost)
+            for k in sorted(ks if not (susp or lost or slow) else {x for x in ks if x % 3 == (0 if susp else 1 if lost else 2)}):
+                r = crash_run(variant, k, action, suspend=susp, lost=lost, slow_exit=slow)
                 if not r["fired"]:
                     continue
-                ctx.case((variant, action, k, susp, lost), nontrivial=r["state_at"] not in ("IDLE", "CONNECTED"))
-                ctx.count("crash:%s:%s%s%s" % (action, r["state_at"], ":suspending_client" if susp else "", ":socket_lost" if lost and r["lost"] else ""))
-                replay = {"variant": variant, "action": action, "event_loop_pass": k, "virtual_time": round(r["t"], 3), "state_at_crash": r["state_at"], "socket_lost_two_passes_earlier": bool(lost and r["lost"])}
+                ctx.case((variant, action, k, susp, lost, slow), nontrivial=r["state_at"] not in ("IDLE", "CONNECTED"))
+                ctx.count("crash:%s:%s%s%s" % (action, r["state_at"], ":suspending_client" if susp else "", ":socket_lost" if lost and r["lost"] else ":slow_exit_handler" if slow else ""))
+                replay = {"variant": variant, "action": action, "event_loop_pass": k, "virtual_time": round(r["t"], 3), "state_at_crash": r["state_at"], "socket_lost_two_passes_earlier": bool(lost and r["lost"]), "exit_handler_suspended_1_2_s": slow}
                 if r["action_done"] is not True:
                     ctx.fail("ledger:%s_raised:%s" % (action, r["state_at"]), "%s at pass %d (%s) did not complete: %s" % (action, k, r["state_at"], r["action_done"]), replay)
                 if r["eps_left"]:
